@@ -57,6 +57,12 @@ def run(repo='/repo', tier='quick'):
             r = strip(a['r'])
             ok = r.get('k') == 'call' and r.get('callee') == 'bstr_dup_mem' and bool({v['name'] for v in nodes(r['args'][0], lambda y: y.get('k') == 'var')} & derived)
             res.check(ok, 'C13.c', 'source:%s' % comp, 'copied from the input buffer', 'the %s component is not a copy of bytes of the request target (%s)' % (comp, P.K(r)[:60]), a['loc'])
+    # only spaces are trimmed from the end of the target
+    trims = [(b, i, x) for b, i, st in f.stmts() for x in nodes(st, lambda y: (y.get('k') == 'un' and y['op'] in ('--', '--post') and P.K(y['e']) == 'len') or (y.get('k') == 'assign' and P.K(y['l']) == 'len' and y['op'] in ('-=', '=')))]
+    for b, i, x in trims:
+        facts = [a for a, e in P.facts_at(f, b)]
+        ok = any(a[0] == 'data[(len - 1)]' and a[1] == '==' and a[2] in ("' '", '32') for a in facts)
+        res.check(ok, 'C13.c', 'trim:only-trailing-spaces', 'len is only reduced under data[len - 1] == \' \'', 'htp_parse_uri shortens the target under a test other than data[len - 1] == \' \': bytes other than trailing spaces are silently dropped from the last component (guards: %s)' % facts[-2:], x['loc'])
     # ---- C13.b
     for fname, target, inval in (('htp_parse_port', '*port', ('*invalid', '1')), ('htp_normalize_parsed_uri', 'normalized->port_number', ('flag', 'HTP_HOSTU_INVALID'))):
         g = db.get(fname)
